@@ -4,7 +4,8 @@ use crate::trace::{bytes, guard_plain, Tracer};
 use serde_json::json;
 
 fn hash_event(t: &mut Tracer, sess: &str, g: Option<&Gen>, msg: &[u8]) {
-    let out = guard_plain(|| gm_sm3::sm3_hash(msg));
+    let placed = crate::gen::realign(msg);
+    let out = guard_plain(|| gm_sm3::sm3_hash(placed.get()));
     let mut f = json!({"prop": "C01", "len": msg.len(), "outcome": out.name(), "detail": out.detail()});
     match g {
         Some(g) => { f["gen"] = g.json(); }
